@@ -359,10 +359,15 @@ func cmdCProbeSem(c *ctx) {
 		}
 	}
 	// rounding to an integral value: exact in every language, they differ only in the direction of ties
-	for _, f := range []string{"floor", "ceil", "trunc", "round"} {
+	for _, f := range []string{"floor", "ceil", "trunc", "round", "sign"} {
 		for _, n := range []int{1, 3} {
 			m := probeModule("f32", n, "", false, false, f)
-			c.probeCases(dialect, m, fmt.Sprintf("%s f32 x%d", f, n), roundBits, "f2r")
+			data := roundBits
+			if f == "sign" {
+				data = roundBits[2:] // WGSL does not fix the sign of sign(±0): +0 and −0 operands are left out
+				data = append([]uint32{0}, data...)
+			}
+			c.probeCases(dialect, m, fmt.Sprintf("%s f32 x%d", f, n), data, "f2r")
 		}
 	}
 	c.precedenceProbes(dialect, bnd)
